@@ -14,7 +14,7 @@ SPEC = os.path.join(VERIF, "spec")
 WORK = os.path.join(VERIF, "work")
 EVID = os.path.join(VERIF, "evidence")
 REPLAYS = os.path.join(VERIF, "replays")
-REPO = "/repo"
+REPO = os.environ.get("VERIF_REPO", "/repo")      # (only the seed sandbox of tools_seed_sandbox.sh overrides this)
 BIN = os.path.join(HARNESS, "target", "debug")
 
 TLC_JAR = "/opt/veriftools/tla/tla2tools.jar"
